@@ -168,6 +168,21 @@ def case_mibdump(idx, rng, tier, res):
         for b in orch.BASE:
             with open(os.path.join(src, b), 'w') as f:
                 f.write(pipeline.fixtures()[b])
+        # SMIv1 style imports: every symbol taken from these modules is rewritten to its SMIv2 home, the
+        # modules are named in IMPORTS all the same: present they are up to date (stubs), absent missing
+        if rng.random() < 0.3:
+            g = dict((k, list(g.get(k, []))) for k in mods)
+            for m in mods:
+                if health[m] in ('ok', 'oidloop') and rng.random() < 0.5:
+                    for b in rng.sample(sorted(orch.V1_BASE), rng.randint(1, 2)):
+                        if b not in g[m]:
+                            g[m].append(b)
+                        if b not in health:
+                            health[b] = 'ok' if rng.random() < 0.6 else 'absent'
+                            if health[b] == 'ok':
+                                with open(os.path.join(src, b), 'w') as f:
+                                    f.write(orch.base_text(b))
+            res.count('runs_with_smiv1_style_imports')
         for m in mods:
             if health[m] == 'absent':
                 continue
